@@ -197,6 +197,10 @@ def run(ctx):
         ctx.tie_broken("extracted decoder model crashed", err)
         return
 
+    # the extracted driver against Coq's own evaluation of the same definitions, on a sample of this run's lines
+    import wirecross
+    wirecross.cross(ctx, [(lines[i], model[i]) for i in small_idx] + [(se_lines[i], spec_out[i]) for i in range(min(nsmall, len(spec_out)))],
+                    ctx.sub_rng("c03-coqcross"), 1500 if thorough else 150, name="c03_cross")
     stage("model (big)")
     # ---- step 2b: a variant may hold a descriptor although the requested type names none (a corrupted inner
     # signature); validate_raw cannot know the number of descriptors, so "validate ok, decoders refuse" is allowed by
